@@ -143,7 +143,7 @@ OnEv(m, ev) ==
 OnWInv(m, ev) ==
   LET openNow == m.opened \ m.closed
       c == [call |-> ev.call, g |-> ev.g, kind |-> ev.kind, target |-> ev.target, tep |-> ev.tep, tinst |-> ev.tinst,
-            tag |-> ev.tag, bad |-> ev.bad, fv |-> ev.fv, seq |-> ev.seq, openAtInvoke |-> openNow, closedAtInvoke |-> m.closed,
+            tag |-> ev.tag, bad |-> ev.bad, fv |-> ev.fv, foreign |-> ev.foreign, seq |-> ev.seq, openAtInvoke |-> openNow, closedAtInvoke |-> m.closed,
             closingAtInvoke |-> m.closing]
   IN [m EXCEPT !.calls = Append(@, c)]
 
@@ -189,6 +189,7 @@ OnQuiesced(m, ev) ==
                        pk \in {x \in DOMAIN m.pend : judged(x)}}
   IN IF m.consumerStopped \/ m.everHeld THEN m ELSE [m EXCEPT !.quietLost = @ \cup lost]
 
+ForeignId == 54321
 Le4(p, o) == p[o + 1] + 256 * p[o + 2] + 65536 * p[o + 3]     \* 24 bits are enough for tags
 
 ExpectedComp(m) == IF m.conf.comp = 0 THEN 1 ELSE m.conf.comp
@@ -236,7 +237,8 @@ OnOutTagged(m, ev, f) ==
                     THEN Check(Check(m4, "C11.forwarded_frame_keeps_its_header", f.sys = 77 /\ f.comp = 88 /\ f.seq = tag % 256 /\ f.v = c.fv, ev),
                                \* ... and is still a valid frame of its own version: checksum right for the bytes sent, v1 payload untruncated
                                "C11.forwarded_frame_is_valid",
-                               c.bad # "" \/ (f.ck = Checksum(f, CrcExtra(FromGo(Defs[TagDef])))
+                               \* (a frame of an id the node's dialect lacks is forwarded as it is: nothing to validate it against)
+                               c.bad # "" \/ c.foreign \/ (f.ck = Checksum(f, CrcExtra(FromGo(Defs[TagDef])))
                                              /\ (f.v = 2 \/ Len(f.payload) = SizeBase(FromGo(Defs[TagDef])))), ev)
                     ELSE AfterOrig(ApplyClauses(m4, OrigClauses(m4, ev, f, TagDef), ev), ev, f)
           IN [m5 EXCEPT !.outs = Put(@, Wire(ev), Append(prev, [tag |-> tag, g |-> c.g, call |-> c.call, seq |-> ev.seq]))]
@@ -273,6 +275,8 @@ OnOutStreamReq(m, ev, f) ==
 OnOut(m, ev) ==
   LET f == ev.f IN
   CASE f.id = 252 /\ Len(f.payload) >= 9 -> OnOutTagged(m, ev, f)
+    \* forwarded frames of a message id outside the node's dialect (raw, id 54321) carry their tag in the same place
+    [] f.id = ForeignId /\ Len(f.payload) >= 9 -> OnOutTagged(m, ev, f)
     [] f.id = 0 -> OnOutHeartbeat(m, ev, f)
     [] f.id = 66 -> OnOutStreamReq(m, ev, f)
     [] OTHER -> m      \* items the scenario wrote raw with other ids (unencodable probes never reach the wire)
